@@ -363,15 +363,30 @@ def atom_children(a):
 # --------------------------------------------------------------------------------------------
 # reduce  ('pow', base)**e  with |e| >= 1  by expanding the integer part
 # --------------------------------------------------------------------------------------------
-def _lead(p):
-    """leading (monomial, coefficient) in a fixed total order on monomials: lexicographic by atom key,
-    then exponent"""
+def _lead(p, order=None, cache=None):
+    """leading (monomial, coefficient) in a fixed total order on monomials: lexicographic over the atoms sorted by key,
+    a larger exponent first (a missing atom has exponent 0).  `order` (atom -> position) and `cache` (monomial -> exponent
+    vector) may be shared between calls on polynomials over the same atoms."""
+    if order is None:
+        atoms = set()
+        for m in p:
+            for a, _ in m:
+                atoms.add(a)
+        order = {a: i for i, a in enumerate(sorted(atoms, key=akey))}
+    if cache is None:
+        cache = {}
+    n = len(order)
     best = None
-    bk = None
-    for m, c in p.items():
-        k = tuple((akey(a), e) for a, e in m)
-        if bk is None or _mono_gt(m, best):
-            best, bk = m, k
+    bv = None
+    for m in p:
+        v = cache.get(m)
+        if v is None:
+            vec = [ZERO] * n
+            for a, e in m:
+                vec[order[a]] = e
+            v = cache[m] = tuple(vec)
+        if bv is None or v > bv:
+            best, bv = m, v
     return best, p[best]
 
 
@@ -390,7 +405,14 @@ def exact_div(num, den, limit=400):
     order, Laurent/Puiseux exponents allowed), else None"""
     if len(den) <= 1 or not num:
         return None
-    dm, dc = _lead(den)
+    atoms = set()
+    for poly in (num, den):
+        for m in poly:
+            for a, _ in m:
+                atoms.add(a)
+    order = {a: i for i, a in enumerate(sorted(atoms, key=akey))}
+    cache = {}
+    dm, dc = _lead(den, order, cache)
     inv = mono_pow(dm, Fraction(-1))
     rem = dict(num)
     quo = {}
@@ -399,7 +421,7 @@ def exact_div(num, den, limit=400):
         steps += 1
         if steps > limit:
             return None
-        rm, rc = _lead(rem)
+        rm, rc = _lead(rem, order, cache)
         qm = mono_mul(rm, inv)
         # divisibility in the Puiseux setting is always possible formally; termination is guaranteed
         # only when the quotient is a polynomial, so bound the number of steps and the quotient size
